@@ -502,10 +502,114 @@ def run_long(ctx, cov):
     return confirm(ctx, rejected, "long")
 
 
+# ---------------------------------------------------------------- the line editor (ConsoleEdit.tla), beyond what C20 quantifies over
+
+EDIT = {"quick": (5, 8, 2), "thorough": (5, 9, 3)}      # MaxLen, MaxKeys, MaxOut
+
+
+def edit_cfg(maxlen, maxkeys, maxout):
+    return """CONSTANTS
+  Letters = {97}
+  Extra = {}
+  BreakInLiterals = TRUE
+  EChars = {97, 32, 59, 39}
+  HistMax = 100
+  MaxLen = %d
+  MaxKeys = %d
+  MaxOut = %d
+  EmitOn = TRUE
+INIT EdInit
+NEXT MCNext
+VIEW View
+ACTION_CONSTRAINT Emit
+INVARIANTS EdTypeOK HandedAreStatements HistIsTailOfOut ShownIsHistory
+PROPERTIES OnlyEnterHandsOver EnterLosesNothing RefinesConsole
+CHECK_DEADLOCK FALSE
+""" % (maxlen, maxkeys, maxout)
+
+
+EDIT_KEYS = {1: "Home", 2: "Left", 4: "DelChar", 5: "End", 6: "Right", 11: "KillEnd", 14: "Down", 16: "Up", 21: "KillStart",
+             23: "DelWord", 127: "Backspace", 1001: "WordLeft", 1002: "WordRight", 13: "Enter"}
+
+
+def keys_text(keys):
+    return " ".join("<%s>" % EDIT_KEYS[k] if k in EDIT_KEYS else chr(k) if k != 32 else "<Space>" for k in keys)
+
+
+def run_editor(ctx, cov):
+    """Spec -> code for ConsoleEdit.tla: every transition TLC explores in the bounded editor (characters typed at the cursor,
+    the cursor and erasing keys, the history ring, Enter anywhere) is pressed on the real Terminal, one key per read, with the
+    control-byte and the escape-sequence spelling of the keys; line, cursor, history position and the statements handed over
+    must be those of the specification.  Inputs with editing keys are outside what C20 quantifies over (statements and line
+    breaks), so a difference here is reported as a NOTE and recorded in the evidence - it is never a verdict on C20."""
+    maxlen, maxkeys, maxout = EDIT[ctx.tier]
+    ec = cov["editor"]
+    d = ctx.sub("c20-edit")
+    scn_path, out_path = os.path.join(d, "scn.ndjson"), os.path.join(d, "out.ndjson")
+    n = 0
+    kinds = {}
+    with open(scn_path, "w") as f:
+        def on_scn(kind, o):
+            nonlocal n
+            n += 1
+            o["id"] = n
+            k = o["keys"][-1]
+            name = EDIT_KEYS.get(k, "Ins")
+            if name == "Enter":
+                name = "Enter/hands-over" if len(o["out"]) and o["buf"] == [] and o["nh"] else "Enter"
+            kinds[name] = kinds.get(name, 0) + 1
+            if o["hidx"] >= 0:
+                kinds["history-shown"] = kinds.get("history-shown", 0) + 1
+            if o["pos"] < len(o["buf"]):
+                kinds["cursor-inside-line"] = kinds.get("cursor-inside-line", 0) + 1
+            f.write(json.dumps(o) + "\n")
+        res = vlib.run_tlc(ctx, "ConsoleEditMC", "ConsoleEditMC_gen.cfg", cfg_text=edit_cfg(maxlen, maxkeys, maxout),
+                           tag="edit", timeout=1500, on_scn=on_scn)
+    vlib.tlc_must_ok(ctx, res, "ConsoleEditMC")
+    ec.update(max_len=maxlen, max_keys=maxkeys, max_out=maxout, distinct=res.distinct, transitions=res.generated, scenarios=n,
+              last_key=kinds, tlc_wall_s=round(res.wall, 1),
+              invariants=["EdTypeOK", "HandedAreStatements", "HistIsTailOfOut", "ShownIsHistory"],
+              action_properties=["OnlyEnterHandsOver", "EnterLosesNothing", "RefinesConsole"])
+    for k in list(EDIT_KEYS.values()) + ["Ins", "Enter/hands-over", "history-shown", "cursor-inside-line"]:
+        if k != "Enter" and kinds.get(k, 0) == 0:
+            raise vlib.Undecided("vacuous: ConsoleEditMC explored no transition of kind '%s'" % k)
+    r = vlib.go_test_inpkg(ctx, "cmd/console", "zz_verif_consoleedit_test.go", run="TestVerifConsoleEdit",
+                           env_extra={"VERIF_CE_SCN": scn_path, "VERIF_CE_OUT": out_path}, timeout=1500)
+    if r.returncode != 0 or not os.path.exists(out_path):
+        raise vlib.Undecided("console editor harness failed (rc=%s):\n%s" % (r.returncode, (r.stdout + r.stderr)[-3000:]))
+    diffs, summary = [], None
+    with open(out_path) as f:
+        for line in f:
+            o = json.loads(line)
+            if o.get("summary"):
+                summary = o
+            else:
+                diffs.append(o)
+    if not summary or summary["scenarios"] != n:
+        raise vlib.Undecided("console editor harness answered %s of %d scenarios" % (summary and summary["scenarios"], n))
+    ec.update(executions=summary["executions"], differing=summary["differing"])
+    cov["states"] += res.distinct
+    cov["transitions"] += res.generated
+    if diffs:
+        diffs.sort(key=lambda o: (len(o["keys"]), o["keys"]))
+        for o in diffs[:3]:
+            last = o["snaps"][-1] if o.get("snaps") else {}
+            ec["differences"].append(dict(keys=keys_text(o["keys"]), spelling=o["mode"], error=o.get("err", ""),
+                                          line_expected=text(o["want"]["line"]), line_observed=text(last.get("line", [])),
+                                          cursor_expected=o["want"]["pos"], cursor_observed=last.get("pos"),
+                                          handed_expected=[text(x) for x in o["want_out"]], handed_observed=[text(x) for x in o["obs"]]))
+        x = ec["differences"][0]
+        ctx.note("the console's line editor differs from ConsoleEdit.tla on %d of %d executions (editing keys are outside what C20 "
+                 "quantifies over: reported, not a verdict); shortest: keys %s -> line %r cursor %s handed %r, specification: line %r "
+                 "cursor %s handed %r" % (summary["differing"], summary["executions"], x["keys"], x["line_observed"], x["cursor_observed"],
+                                          x["handed_observed"], x["line_expected"], x["cursor_expected"], x["handed_expected"]))
+
+
 def new_cov():
     return dict(states=0, transitions=0, traces_validated_against_impl=0, samples=[], exhaustive=True, scenarios=0,
                 executions=0, modes={}, kinds={}, paste_indicator_returns=0, mismatch_groups=0, judged_by_tlc=0,
                 rejected_by_model_invariant=0, drift=0, drift_samples=[], rejected=0, rejected_by_signature={}, configs=[],
+                editor=dict(differences=[]),
                 long=dict(inputs=0, executions=0, bytes_min=0, bytes_max=0, statements=0, judged_by_tlc=0, accepted=0,
                           rejected=0, modes={}, kinds={}, straddles={}, multibyte_straddling_a_read_boundary=0))
 
@@ -607,6 +711,7 @@ def run(ctx):
     if not cov["samples"]:
         raise vlib.Undecided("no sample scenario found for the evidence file")
     all_rejected += run_long(ctx, cov)
+    run_editor(ctx, cov)
     cov["rejected"] = len(all_rejected)
     cov["rejected_by_signature"] = report(ctx, all_rejected)
     if cov["drift"]:
